@@ -331,6 +331,8 @@ def set_async(rnd, prog, mode, must_async=()):
     if mode == "none":
         return
     keys = sorted(cbs)
+    if not keys:
+        return
     if mode == "all":
         for c in keys:
             cbs[c]["async"] = True
